@@ -660,6 +660,42 @@ def arctan2_mirror_axioms(a, b):
     return [z3.Implies(z3.Or(b != 0, a >= 0), at(-b, a) == -at(b, a)), z3.Implies(z3.And(b == 0, a < 0), z3.And(at(-b, a) == PI, at(b, a) == PI))]
 
 
+# Optional abstraction of integer modulo by a *symbolic* divisor (obligation meta "abstract_int_mod", default off): every such
+# `x mod n` becomes mod_abs_sym(x, n) for one uninterpreted function, consistently in all formulas of the obligation (also under
+# quantifiers).  Any model of the original formulas is a model of the abstracted ones (interpret the symbol as mod), so `unsat`
+# is preserved; a `sat` answer is only a candidate (verify._has_abstractions knows the symbol).  Used by spec lemmas that carry
+# the facts about mod they need as explicit (proved) hypotheses: z3's own treatment of mod by a symbolic divisor is nonlinear
+# integer arithmetic and diverges on them.
+MOD_ABS_SYM = z3.Function("mod_abs_sym", IntS, IntS, IntS)
+
+
+def abstract_int_mod(fs):
+    memo = {}
+
+    def walk(t):
+        k = t.get_id()
+        if k in memo:
+            return memo[k][1]
+        if z3.is_quantifier(t):
+            n = t.num_vars()
+            vs = [z3.Const(Fresh.name("am_" + t.var_name(i).split("!")[0]), t.var_sort(i)) for i in range(n)]
+            body = walk(z3.substitute_vars(t.body(), *reversed(vs)))
+            r = (z3.ForAll if t.is_forall() else z3.Exists)(vs, body)
+        elif z3.is_app(t) and t.num_args() > 0:
+            ch = [walk(c) for c in t.children()]
+            if t.decl().kind() == z3.Z3_OP_MOD and not z3.is_int_value(t.arg(1)):
+                r = MOD_ABS_SYM(ch[0], ch[1])
+            elif all(c.eq(o) for c, o in zip(ch, t.children())):
+                r = t
+            else:
+                r = t.decl()(*ch)
+        else:
+            r = t
+        memo[k] = (t, r)       # keeps t alive: ids are recycled otherwise
+        return r
+    return [walk(f) for f in fs]
+
+
 # --------------------------------------------------------------------------- symbols
 class Fresh:
     n = 0
